@@ -99,13 +99,13 @@ class KernelSim(WorldBase):
         case = K.gen_case(g, max_shape=cfg["max_shape"], explicit=cfg.get("explicit", 0.0))
         evs = [["case", case]]
         if self.prop == "C06":
-            flows = K.all_flows(case, g, max_flows=cfg["max_flows"])
+            flows = K.all_flows(case, g, max_flows=cfg["max_flows"], spellings=True)
             out, ops = K.case_spec(case)
             cut = g.randint(1, max(1, len(flows) - 1)) if g.random() < 0.5 else None
             if g.random() < 0.35:
                 flows = [dict(fl, always_swizzle=True) for fl in flows]
             # tiled executions whose output keeps its un-tiled rank (populated once per tile, tile after tile)
-            flows = [dict(fl, z_untiled=True) if fl.get("tile") and "splits" not in fl["tile"] and g.random() < 0.4 else fl
+            flows = [dict(fl, z_untiled=True) if fl.get("tile") and "splits" not in fl["tile"] and not fl["tile"].get("relative") and g.random() < 0.4 else fl
                      for fl in flows]
             scan_at = g.randrange(len(flows)) if flows and g.random() < 0.4 else None
             for i, flow in enumerate(flows):
